@@ -154,7 +154,7 @@ class Contract:
     def __init__(self, target, props, params, requires=(), ensures=(), raises=None, loops=None, hooks=None,
                  name=None, ghost=None, lemma_uses=None, replay=None, note='', order=None, static=False,
                  ensures_raise=None, known=None, setup=None, result_name='result', finite_scope=None,
-                 call=None, expect_unsupported=False, hunt=None, lemmas=None, static_checks=None):
+                 call=None, expect_unsupported=False, hunt=None, lemmas=None, static_checks=None, sampler=None):
         self.target = target
         self.props = props
         self.params = params
@@ -185,6 +185,7 @@ class Contract:
         self.hunt = hunt
         self.lemmas = [_parse(c) for c in (lemmas or [])]
         self.static_checks = static_checks or []
+        self.sampler = sampler      # rng -> dict of real arguments (CPython cross-check of the proved clauses)
         REGISTRY.append(self)
 
     def __repr__(self):
